@@ -214,3 +214,37 @@ Proof.
   split; [vm_compute; reflexivity|]. split; [vm_compute; reflexivity|]. split; [vm_compute; reflexivity|].
   eexists. eexists. split; [vm_compute; reflexivity | split; [vm_compute; reflexivity | vm_compute; reflexivity]].
 Qed.
+
+(* ---- fixed tuples with an Unpack segment (element-wise, round 4) ---- *)
+(* Tuple[int, Unpack[Tuple[str, ...]], bool] and Tuple[int, Unpack[Tuple[str, float]]] *)
+Definition t_unp_var := TTuple [(false, TInt); (true, TList true TStr); (false, TBool)].
+Definition t_unp_fix := TTuple [(false, TInt); (true, TTuple [(false, TStr); (false, TFloat)])].
+(* Tuple[int, Unpack[Tuple[str, Unpack[Tuple[float, ...]]]], bool]: Unpack inside an unpacked tuple *)
+Definition t_unp_nest := TTuple [(false, TInt); (true, TTuple [(false, TStr); (true, TList true TFloat)]); (false, TBool)].
+Lemma nonvacuous_unpack_nested :
+  ty_ok 9 E0 false false t_unp_nest = true /\
+  enc_ok 9 E0 false false t_unp_nest (VList [VInt 1; VStr "a"; VFlt "2.5"; VFlt "0.5"; VBool true])
+         (JArr [JInt 1; JStr "a"; JFlt "2.5"; JFlt "0.5"; JBool true]) = true /\
+  exists s, schema_f E0 dl2020 false false 9 t_unp_nest = Some s /\
+            jvalid pm_any [] 50 s (JArr [JInt 1; JStr "a"; JFlt "2.5"; JFlt "0.5"; JBool true]) = true /\
+            jvalid pm_any [] 50 s (JArr [JInt 1; JBool true]) = false.
+Proof.
+  split; [vm_compute; reflexivity|]. split; [vm_compute; reflexivity|].
+  eexists. split; [vm_compute; reflexivity | split; [vm_compute; reflexivity | vm_compute; reflexivity]].
+Qed.
+Lemma nonvacuous_unpack :
+  ty_ok 9 E0 false false t_unp_var = true /\ ty_ok 9 E0 false false t_unp_fix = true /\
+  enc_ok 9 E0 false false t_unp_var (VList [VInt 1; VStr "a"; VStr "b"; VBool true]) (JArr [JInt 1; JStr "a"; JStr "b"; JBool true]) = true /\
+  enc_ok 9 E0 false false t_unp_fix (VList [VInt 1; VStr "a"; VFlt "2.5"]) (JArr [JInt 1; JStr "a"; JFlt "2.5"]) = true /\
+  (exists s, schema_f E0 dl2020 false false 9 t_unp_var = Some s /\
+             jvalid pm_any [] 50 s (JArr [JInt 1; JStr "a"; JStr "b"; JBool true]) = true /\
+             jvalid pm_any [] 50 s (JArr [JInt 1]) = false) /\
+  (exists s, schema_f E0 dl2020 false false 9 t_unp_fix = Some s /\
+             jvalid pm_any [] 50 s (JArr [JInt 1; JStr "a"; JFlt "2.5"]) = true /\
+             jvalid pm_any [] 50 s (JArr [JInt 1; JInt 2; JFlt "2.5"]) = false).
+Proof.
+  split; [vm_compute; reflexivity|]. split; [vm_compute; reflexivity|]. split; [vm_compute; reflexivity|].
+  split; [vm_compute; reflexivity|]. split.
+  - eexists. split; [vm_compute; reflexivity | split; [vm_compute; reflexivity | vm_compute; reflexivity]].
+  - eexists. split; [vm_compute; reflexivity | split; [vm_compute; reflexivity | vm_compute; reflexivity]].
+Qed.
